@@ -135,8 +135,9 @@ func c08Check[E zzverif.Scalar](v *zzverif.T) {
 			v.Assert("C08.invalid-request-is-an-error", r.Err != nil)
 			return
 		}
+		v.Assert("C08.valid-request-is-computed", r.Err == nil)
 		if r.Err != nil {
-			return // refused: allowed
+			return
 		}
 		outShape := make([]int, rank)
 		for i := range perm {
@@ -205,6 +206,7 @@ func c08Check[E zzverif.Scalar](v *zzverif.T) {
 			v.Assert("C08.invalid-request-is-an-error", r.Err != nil)
 			return
 		}
+		v.Assert("C08.valid-request-is-computed", r.Err == nil)
 		if r.Err != nil {
 			return
 		}
@@ -392,6 +394,7 @@ func c08Check[E zzverif.Scalar](v *zzverif.T) {
 			v.Assert("C08.invalid-request-is-an-error", r.Err != nil)
 			return
 		}
+		v.Assert("C08.valid-request-is-computed", r.Err == nil)
 		if r.Err != nil {
 			return
 		}
@@ -433,6 +436,7 @@ func c08Check[E zzverif.Scalar](v *zzverif.T) {
 			v.Assert("C08.invalid-request-is-an-error", r.Err != nil)
 			return
 		}
+		v.Assert("C08.valid-request-is-computed", r.Err == nil)
 		if r.Err != nil {
 			return
 		}
